@@ -2,8 +2,8 @@ CHECKS['C06'] = dict(
     engine='E-in',
     design_ref='DESIGN.md 4 C06',
     technique='exhaustive enumeration of (message stream x TCP segmentation x inter-segment delay) against the real Connection.reader_async/reader and an ESTABLISHED Peer._main under a virtual loop; reference framer oracle',
-    text='A: every stream of <=2 messages over a 20-message alphabet (7 valid incl. a maximum-size UPDATE, 13 header faults) x every segmentation with <=2 (thorough 3) cuts at all header and body-boundary offsets, '
-         'all uniform chunk sizes 1..32 and coalesced, for both maximum sizes, through both reader implementations; B: 11 streams x cuts x every delay vector over {0, 0.15 s} fed to an established session in the full virtual world (also one where ExaBGP mirrors the AS of the peer and so sends its OPEN second) '
+    text='A: every stream of <=2 messages over a 23-message alphabet (7 valid incl. a maximum-size UPDATE, 16 header faults incl. bare 19-octet headers of types that need a body) x every segmentation with <=2 cuts at all header and body-boundary offsets (thorough: also <=4 cuts for single messages, <=3 cuts for pairs and <=1 cut for triples over an 8-message core alphabet), '
+         'all uniform chunk sizes 1..32 and coalesced, for both maximum sizes, through both reader implementations; B: 11 streams x cuts x every delay vector over {0, 0.15 s} fed to an established session in the full virtual world (also one where ExaBGP mirrors the AS of the peer and so sends its OPEN second, and sessions where extended messages are advertised by one side only: the limit stays 4096) '
          '(reads are wrapped in a 0.1 s timeout there). Oracle: same messages/bodies/order as the reference framer; first header fault answered 1/1, 1/2 or 1/3 and nothing after it interpreted.',
     note='Trusted: vt/ref/wire.split_stream; a read returns at most one queued segment. Outside: streams of more than 3 messages, kernel coalescing not expressible as cut lists.',
 )
